@@ -269,6 +269,20 @@ def hidden_cases():
                 bql.select([(col('a'), None)], frm, where=['gt', col('b'), ['const', 'int', 0]]),
                 bql.select([(col('c'), None)], frm, where=['eq', col('d'), ['const', 'str', 'z']]),
                 bql.select([(col('a'), None), (['fn', 'count', [['star']]], 'n')], frm, group_by=[col('a'), col('b')])]
+    # LIMIT of the outer query cuts the outer result, never the rows the sub-select delivers to it
+    for inner in (bql.select([(col('rid'), 'r'), (col('x'), 'a'), (col('s'), 'c')], ('table', 'm')),
+                  bql.select([(col('rid'), 'r'), (col('x'), 'a'), (col('s'), 'c')], ('table', 'm'), limit=9),
+                  bql.select([(col('rid'), 'r'), (col('x'), 'a'), (col('s'), 'c')], ('table', 'm'), order_by=[(col('y'), 'DESC')])):
+        frm = ('subq', inner)
+        cnt = ['fn', 'count', [['star']]]
+        for lim in (1, 2, 5):
+            out += [bql.select([(cnt, 'n'), (['fn', 'sum', [col('a')]], 't')], frm, limit=lim),
+                    bql.select([(col('c'), None), (cnt, 'n')], frm, limit=lim),
+                    bql.select([(col('c'), None), (['fn', 'max', [col('r')]], 'mx')], frm, group_by=[col('c')], limit=lim),
+                    bql.select([(col('c'), None)], frm, distinct=True, limit=lim),
+                    bql.select([(col('r'), None)], frm, where=['gt', col('a'), ['const', 'int', 0]], limit=lim),
+                    bql.select([(col('r'), None), (col('a'), None)], frm, order_by=[(col('a'), 'DESC'), (col('r'), 'ASC')], limit=lim),
+                    bql.select([(col('r'), None)], frm, limit=lim)]
     # membership in an ordered and cut sub-select: which rows survive the LIMIT depends on the order (also on hidden keys)
     frm = ('table', 'm')
     for d in ('ASC', 'DESC'):
